@@ -63,7 +63,11 @@ def run(ctx, scale=1):
                                      "select a$b, _c from t", "select a from t where b = 'it''s' and c<>-1",
                                      # bare names over the whole identifier alphabet (its edges: À Ö Ø ö ø ÿ Ā ƿ; ǀ is outside)
                                      "select aĀ, Āb, ƿ, xƿy from tÿ", "select À1, ÖØ, öø from ÿĀ join Ɛ on Ɛ.ƿ = ÿĀ.À1",
-                                     "select a from t where ǀ = 1", "select aǀ from t", "select ñandú, straße, Ǝ from Ɵ where ƛ > 1"]]
+                                     "select a from t where ǀ = 1", "select aǀ from t", "select ñandú, straße, Ǝ from Ɵ where ƛ > 1",
+                                     # the three comment styles glued to words (a comment is not a dialect-sensitive spelling)
+                                     "select a from t #trailing", "select a, #first column\n b from t", "select a from t ##### section\nwhere a = 1",
+                                     "select * from t where a = 1 #x\n and b = 2", "select a from t #\nwhere a = 1", "select a from t#c\n",
+                                     "select a/*c*/from t", "select a from t --trailing", "select a, --first\n b from t"]]
     # the whole operator table side by side: a dialect whose operator order / flattening differs shows here
     import precprobe
     stmts += [(s, "operators") for s in precprobe.statements()]
